@@ -182,7 +182,10 @@ func VerifyFunction(ld *Loaded, cs *ContractSet, fn *ssa.Function, ct *Contract)
 		if recoversFirst(fn) {
 			ok = tTrue
 		}
-		ex.oblige(fr, "recovers", "a deferred recover() is installed before any other call", tTrue, ok, fn.Pos())
+		// (a named constant, so that the obligation is recorded even when it holds)
+		g := ex.sc.Fresh("recovers", SBool)
+		ex.sc.Assert(Eq(g, ok))
+		ex.oblige(fr, "recovers", "a deferred recover() is installed before any other call", tTrue, g, fn.Pos())
 	}
 	fr.entry = st.clone()
 	fr.blockPC = tTrue
